@@ -14,7 +14,7 @@ from lib import symtables as S
 from lib import crystals as K
 
 LEVEL = "proof"
-STATIC = S.STATIC + ["Reflect/GroupChecksProofs.vo", "Reflect/NormChecksProofs.vo", "Reflect/InfoAgree.vo"]
+STATIC = S.STATIC + ["Reflect/GroupChecksProofs.vo", "Reflect/NormChecksProofs.vo", "Reflect/InfoAgree.vo", "Reflect/CertProofs.vo"]
 
 CLAUSE_NAMES = ["letters", "exprs", "group", "orbits", "info", "proper_perms"]
 NORM_CLAUSES = ["shape", "normalises", "metric", "handedness", "perm_wellformed", "letters"]
